@@ -220,6 +220,12 @@ def dex_ret(effect):
 
 
 def sha256_only(ctx, w, f, rule):
-    dcall = [c for _, c in M.calls(f["body"]) if c.get("fn", "").endswith("Digest::digest")]
+    # the function itself and the private helpers of its module it calls (one level: a helper shared by both hash functions)
+    fam = [f]
+    for _, c in M.calls(f["body"]):
+        g = w.lookup(M.callee_name(c))
+        if g is not None and "body" in g and U.sig_inline(M.callee_name(c)) and g not in fam:
+            fam.append(g)
+    dcall = [c for g in fam for _, c in M.calls(g["body"]) if c.get("fn", "").endswith("Digest::digest")]
     ctx.check(len(dcall) == 1 and "sha2::core_api::Sha256VarCore" in dcall[0]["fnargs"][0], rule, rule + ":sha256",
               w.where(f), bad_msg="the digest is not (a single) SHA-256")
